@@ -34,14 +34,15 @@ var families = []family{
 	{
 		Name: "scalars",
 		Leaves: []famLeaf{
-			{"log.level", "debug", "warn"},                    // scalar (enum decoded by a hook)
-			{"serve.decision.timeout.read", "7s", "9s"},       // nested scalar, duration
-			{"serve.proxy.buffer_limit.read", "8KB", "16KB"},  // byte size, name with underscore
-			{"metrics.enabled", "false", "true"},              // boolean
-			{"tracing.span_processor", "simple", "batch"},     // name with underscore
-			{"serve.management.port", "9000", "9001"},         // integer
-			{"serve.decision.host", "127.0.0.1", `"127"`}, // strings that look numeric / consist of digits
-			{"secrets_reload_enabled", "true", "false"},       // top level name with underscores
+			{"log.level", "debug", "warn"},                   // scalar (enum decoded by a hook)
+			{"serve.decision.timeout.read", "7s", "9s"},      // nested scalar, duration
+			{"serve.proxy.buffer_limit.read", "8KB", "16KB"}, // byte size, name with underscore
+			{"metrics.enabled", "false", "true"},             // boolean
+			{"tracing.span_processor", "simple", "batch"},    // name with underscore
+			{"serve.management.port", "9000", "010"},         // integer, the other one with a leading zero
+			{"serve.proxy.host", "127.0.0.3", "t"},           // a string that other parsers take for a boolean
+			{"serve.decision.host", "127.0.0.1", `"127"`},    // strings that look numeric / consist of digits
+			{"secrets_reload_enabled", "true", "false"},      // top level name with underscores
 		},
 	},
 	{
